@@ -13,6 +13,12 @@ impl Events {
     }
     /// Get the next [`Event`].
     pub fn next(&mut self) -> Option<Event> {
+        // With the verification hooks only injected events exist, the terminal is never touched
+        #[cfg(feature = "verif-hooks")]
+        #[allow(unreachable_code)]
+        {
+            return super::verif_hooks::pop_injected();
+        }
         match event::poll(Duration::from_secs(0)) {
             Ok(true) => event::read().ok(),
             _ => None,
